@@ -29,9 +29,60 @@ UNITS = [
          ensures=[("def", "r == Data::Refs(data)")]),
     Unit(name="Data::reduce", file=F, impl=DATA, fn="reduce", order=3, serves=["C02", "C01"],
          shapes=[("R1", 3)],
-         body_prefix="broadcast use lemma_nds_push_front, lemma_nds_concat;",
+         body_prefix="broadcast use group_nds;",
          ensures=[
              ("concat", "is_nodes(self) && is_nodes(other) ==> is_nodes(r) && nodes(r) == nodes(self) + nodes(other)"),
              ("value", "!(is_nodes(self) && is_nodes(other)) ==> r is Nothing"),
+         ]),
+
+    Unit(name="Data::flat_map", file=F, impl=DATA, fn="flat_map", order=3, serves=["C02", "C01"],
+         requires=[("total", "forall|p: Pointer<'a, T>| f.requires((p,))")],
+         ensures=[
+             ("mapped", "forall|h: spec_fn(Node<'a, T>) -> Seq<Node<'a, T>>| is_nodes(self) && pins(f, h) ==> nodes(r) == #[trigger] mapped(nodes(self), h)"),
+             ("nodey", "is_nodes(self) && nodey(f) ==> is_nodes(r)"),
+             ("value", "!is_nodes(self) ==> r is Nothing"),
+             ("single", "self matches Data::Ref(p) ==> f.ensures((p,), r)"),
+             ("refs", "self is Refs ==> r is Refs"),
+             ("nothing", "self is Nothing ==> r is Nothing"),
+         ],
+         body_prefix="broadcast use group_nds, lemma_mapped_one, lemma_mapped_none, lemma_nodes_ptrs;",
+         shapes=[("R3", 1)],
+         closures={1: Cl(types=["Pointer<'a, T>"], ret="(o: Vec<Pointer<'a, T>>)",
+                         requires=[("pre", "f.requires((data,))")],
+                         ensures=[("out", "exists|d: Data<'a, T>| #[trigger] f.ensures((data,), d) && o@ =~= ptrs(d)")])},
+         ),
+
+    # ---- State ----
+    Unit(name="State::bool", file=F, impl=STATE, fn="bool", order=4, serves=["C05", "C04", "C10"], shapes=[("E6", 1)],
+         ensures=[("def", "r.root == root && r.data == Data::<T>::Value(T::from_bool_spec(b))")]),
+    Unit(name="State::i64", file=F, impl=STATE, fn="i64", order=4, serves=["C10"], shapes=[("E6", 1)],
+         ensures=[("def", "r.root == root && r.data == Data::<T>::Value(T::from_i64_spec(i))")]),
+    Unit(name="State::str", file=F, impl=STATE, fn="str", order=4, serves=["C10"], shapes=[("E6", 1)],
+         ensures=[("def", "r.root == root && r.data == Data::<T>::Value(T::from_str_spec(v@))")]),
+    Unit(name="State::shift_to_root", file=F, impl=STATE, fn="shift_to_root", order=4, serves=["C05"],
+         ensures=[("root", "r.root == self.root"), ("data", "r.data matches Data::Ref(p) && nd(p) == (Node { inner: self.root, path: root_path() })")]),
+    Unit(name="State::root", file=F, impl=STATE, fn="root", order=4, serves=["C01", "C03", "C05"],
+         body_prefix='proof { reveal_strlit("$"); assert("$"@ =~= root_path()); }',
+         ensures=[("root", "r.root == root"), ("data", "r.data matches Data::Ref(p) && nd(p) == (Node { inner: root, path: root_path() })")]),
+    Unit(name="State::nothing", file=F, impl=STATE, fn="nothing", order=4, serves=["C10"],
+         ensures=[("def", "r.root == root && r.data is Nothing")]),
+    Unit(name="State::data", file=F, impl=STATE, fn="data", order=4, serves=["C01", "C05"],
+         ensures=[("def", "r == (State { root, data })")]),
+    Unit(name="State::ok_val", file=F, impl=STATE, fn="ok_val", order=4, serves=["C05"],
+         ensures=[("def", "r == (match self.data { Data::Value(v) => Some(v), _ => None })")]),
+    Unit(name="State::reduce", file=F, impl=STATE, fn="reduce", order=4, serves=["C02", "C01"],
+         ensures=[
+             ("root", "r.root == self.root"),
+             ("concat", "is_nodes(self.data) && is_nodes(other.data) ==> is_nodes(r.data) && nodes(r.data) == nodes(self.data) + nodes(other.data)"),
+             ("value", "!(is_nodes(self.data) && is_nodes(other.data)) ==> r.data is Nothing"),
+         ]),
+    Unit(name="State::flat_map", file=F, impl=STATE, fn="flat_map", order=4, serves=["C02", "C01"],
+         requires=[("total", "forall|p: Pointer<'a, T>| f.requires((p,))")],
+         ensures=[
+             ("root", "r.root == self.root"),
+             ("mapped", "forall|h: spec_fn(Node<'a, T>) -> Seq<Node<'a, T>>| is_nodes(self.data) && pins(f, h) ==> nodes(r.data) == #[trigger] mapped(nodes(self.data), h)"),
+             ("nodey", "is_nodes(self.data) && nodey(f) ==> is_nodes(r.data)"),
+             ("value", "!is_nodes(self.data) ==> r.data is Nothing"),
+             ("single", "self.data matches Data::Ref(p) ==> f.ensures((p,), r.data)"),
          ]),
 ]
